@@ -395,6 +395,10 @@ impl Run {
         let world = World::new(cfg, tag).await;
         let mut node = world.start().await.expect("aggregator boots");
         let mut model = Model::new(cfg.protocol_parameters(), cfg.n_signers as usize);
+        if cfg.zero_stake_party {
+            let last = model.n() - 1;
+            model.set_stake(last, 0);
+        }
         let all: Vec<_> = (0..model.n()).map(|p| model.signer_with_stake(p, 0)).collect();
         sut::bootstrap_genesis_state(&world, &mut node, &all, Epoch(sut::START_EPOCH)).await.expect("bootstrap");
         for p in 0..model.n() {
